@@ -282,8 +282,7 @@ ENSURES(second_argument_shortcut_is_pointwise_sound, (__CPROVER_return_value & 2
     __CPROVER_requires(fa->the_terminal_type == terminal_type__INTEGER && fb->the_terminal_type == terminal_type__INTEGER && fc->the_terminal_type == terminal_type__INTEGER) \
     __CPROVER_requires(a != INT_MIN && b != INT_MIN && pa <= 0 && pb <= 0 && pa != INT_MIN && pb != INT_MIN && verif_exc == 0) \
     /* the caller consults the shortcuts only after the terminal-terminal case went to the kernel */ \
-    __CPROVER_requires(a > 0 || b > 0) \
-    __CPROVER_requires(fa->deflt.reduction == fb->deflt.reduction)
+    __CPROVER_requires(a > 0 || b > 0)
 int lemma_mt_plus_shortcuts_pw(struct forest *fa, struct forest *fb, struct forest *fc, node_handle a, node_handle b, node_handle pa, node_handle pb)
 MTPW_REQ()
 __CPROVER_assigns(verif_exc)
